@@ -48,6 +48,9 @@ CHECKS['C11']=dict(level='exploration', ref='4.11', technique='deterministic sim
 CHECKS['C15']=dict(level='exploration', ref='4.15', technique='deterministic simulation with a simulated clock (testing/synctest bubble) and zone: constructor-built logins cross the link, both peers verify with an independent MD5; credential search for digests containing 0x00',
    text='The clock is moved to a seed-chosen instant and zone, the real constructors build the login (or it is built from fields for timestamps no clock produces), it is encoded, framed and decoded at the server, which recomputes the digest with crypto/md5, answers, and the client verifies the server authenticator independently; correct credentials must verify in both directions, a wrong secret must not, and the wire octets must be the digest the protocol defines. Secrets are searched so that digests contain or end in 0x00.',
    note='Digests whose last octet is 0x00 are a listed known finding (trailing NULs are stripped on decode, pinned by the suite).')
+CHECKS['C18']=dict(level='exploration', ref='4.18', technique='deterministic simulation: SMSC stub emits submit responses and delivery receipts in a seed-chosen network order (receipts may overtake responses); ESME extracts with the real extractors and correlates by id; exactly-once correlation oracle',
+   text='Receipt texts are built from the eight standard keys in a seed-chosen order, subset and spelling (SMGP: both spellings, ten arbitrary id octets), values also longer than the field width; they travel as deliver PDUs interleaved with the submit responses; every message must be matched with exactly one receipt and every extracted field must equal the characters between its colon and the next space (SMGP: cut to the field width, id as hex). CMPP status-report bodies round-trip through their encoder and decoder inside deliver PDUs.',
+   note='8! orders x 2^8 subsets x values are sampled, not enumerated; values contain no colon so that they cannot spell a key token.')
 PENDING = {}
 def load_extra():
     try:
